@@ -669,7 +669,12 @@ func c20GenScript(rng *rand.Rand) string {
 		add("l")
 	}
 	if rng.IntN(5) < 3 {
-		add(fmt.Sprintf("h%d", pick(rng, 200, 201, 204, 301, 400, 403, 404, 418, 500, 503, 599, 200+rng.IntN(400), 101, 101, 600+rng.IntN(400))))
+		code := pick(rng, 200, 201, 204, 301, 400, 403, 404, 418, 500, 503, 599, 200+rng.IntN(400), 101, 101, 600+rng.IntN(400))
+		if v, ok := dictInt(rng, 200, 999); ok && rng.IntN(6) == 0 {
+			// a status next to an integer constant of the source
+			code = int(v)
+		}
+		add(fmt.Sprintf("h%d", code))
 		pause()
 	}
 	for k := rng.IntN(4); k > 0; k-- {
